@@ -1,6 +1,7 @@
 #!/venv/bin/python
 """tools/regress.py [--seeds] [--refactors] [--only SUBSTR] : regression of the checks against the kept corpora, in parallel,
-on scratch copies of /repo's modules (never touches /repo).
+on scratch copies of /repo's modules (never touches /repo; REGRESS_SRC=<dir> reads the modules from a snapshot instead,
+for use while something else is patching /repo).
   seeds      /verif/seeded/<Cnn>-<v>/patch.diff      must be reported (exit 1) by the check of property Cnn
   refactors  /verif/seeded/refactors/*.diff          behaviour-preserving: every check must stay silent (exit 0)
 """
@@ -10,7 +11,7 @@ PROPS = ['C%02d' % i for i in range(1, 21)]
 
 def scratch(patch):
     d = tempfile.mkdtemp(prefix='sa-reg-')
-    for p in glob.glob('/repo/*.py'):
+    for p in glob.glob(os.environ.get('REGRESS_SRC', '/repo') + '/*.py'):
         if not os.path.basename(p).startswith('test_'):
             shutil.copy(p, d)
     r = subprocess.run(['git', 'apply', '--exclude=test_*', patch], cwd=d, capture_output=True, text=True)
